@@ -35,7 +35,11 @@ META = {
             "sendAccept, control connection severed on either side / kicked / shut down / endpoint closed by the "
             "application, then the application drains Accept) run against a real Server and Endpoint: Accept "
             "returns, every accepted connection's pending Read, later Read and Write return, Endpoint.Close "
-            "returns, every front connection is closed, nothing is left; also in the side modes.",
+            "returns, every front connection is closed, nothing is left; also in the side modes. endpointClient.Close "
+            "(kick, ServeBackName's defer) reaches c.conn.Close() within its time-out for {hint first | not} x {peer "
+            "answers | silent}: the blocking points of transport.shutdown are read off the source with the obligation "
+            "that each has an arm on the caller's context; a bare receive on serveDone is kept as a refuted "
+            "counter-model.",
     "note": "Partial (runtime): the theorems give enabledness and a bound on own steps; that an enabled goroutine "
             "runs is Go's scheduler; TCP close/reset timing, the websocket close handshake and Go timers are not "
             "modelled (10 s observation bounds stand in for bounded time). Trusted: Coq kernel + vm_compute; "
@@ -424,7 +428,9 @@ def run(ck):
              "writes broken, cancel, bursts of 130-240 concurrent calls after the loss or against a peer that has stopped "
              "reading}; every scenario ends with the connection lost) replayed on the model; plus "
              "end-to-end scenarios {endpoint-side sever, server-side sever, graceful close, kick, kick while the old "
-             "control path is black-holed by a frozen TCP relay, server-side serve loop ended by an error-byte reply "
+             "control path is black-holed by a frozen TCP relay, the endpoint's shutdown hint first (the server-to-endpoint "
+             "direction already dark, so the server's shutdown request is never answered) then the black hole then a kick "
+             "resp. the server's own Close, server-side serve loop ended by an error-byte reply "
              "while the websocket is healthy; in the side modes: control connection lost on either side with side "
              "connections established, endpoint kicked while a side dial is in flight and its side websocket is held "
              "in the server} x 0-8 tunnelled "
